@@ -140,7 +140,7 @@ def whole_array_param_case(c):
     """`float array A[r, c] =\\n    {P}`: free parameters P_i_j, variable is an r x c array of those symbols"""
     import sympy as sym
     t, r, cc = c
-    text = H + "%s array A[%d, %d] =\n    {P}\nG(A) | 0\n" % (t, r, cc)
+    text = H + "%s array A[%d, %d] =\n    {P}\nG(A) | 0\nK(%s) | 1\n" % (t, r, cc, ", ".join("A[%d]" % k for k in range(r * cc)))
     p, e = _load(text)
     if e is not None:
         return ("C05/whole-array-param-rejected", common.exc_sig(e))
@@ -153,10 +153,47 @@ def whole_array_param_case(c):
                 return ("C05/whole-array-param-layout", "A[%d,%d] is %r" % (i, j, A[i, j]))
     if set(p.parameters) != {"P_%d_%d" % (i, j) for i in range(r) for j in range(cc)}:
         return ("C05/whole-array-param-parameters", repr(sorted(p.parameters)))
+    for k, got in enumerate(p.operations[1]["args"]):       # A[k] is the k-th element in row-major order
+        if got != sym.Symbol("P_%d_%d" % divmod(k, cc)):
+            return ("C05/whole-array-param-index", "A[%d] is %r, expected P_%d_%d" % ((k, got) + divmod(k, cc)))
+    arg = p.operations[0]["args"][0]
+    if observe.kind(arg) != "a" or arg.shape != (r, cc) or any(arg[i, j] != sym.Symbol("P_%d_%d" % (i, j)) for i in range(r) for j in range(cc)):
+        return ("C05/whole-array-param-argument", repr(arg))
     return None
 
 
-FAMILIES = {"scalar": scalar_case, "array": array_case, "ragged": ragged_case, "index": index_case, "whole": whole_array_param_case}
+EXPR_ROWS = {
+    "int": ([["n0", "n0*2+1", "-n0"], ["B0[1]", "2**3", "7"]], [[4, 9, -4], [-6, 8, 7]]),
+    "float": ([["x0", "n0/8", "A0[3]"], ["-x0**2", "2*x0", "1e-7"]], [[2.5, 0.5, 4.25], [6.25, 5.0, 1e-7]]),
+    "complex": ([["z0", "z0*z0", "x0"], ["-2j", "n0", "2*z0"]], [[1 - 2j, -3 - 4j, 2.5], [-2j, 4, 2 - 4j]]),
+}
+
+
+def exprarray_case(c):
+    """array entries written as expressions over declared variables and elements of other arrays"""
+    t, transpose = c
+    rows, want = EXPR_ROWS[t]
+    if transpose:
+        rows = [list(r) for r in zip(*rows)]
+        want = [list(r) for r in zip(*want)]
+    text = H + PRE + "%s array E =\n" % t + "".join("    " + ", ".join(r) + "\n" for r in rows) + "G(E, E[1]) | 0\n"
+    p, e = _load(text)
+    if e is not None:
+        return ("C05/expression-array-rejected:" + type(e).__name__, common.exc_sig(e))
+    E = p.variables.get("E")
+    if observe.kind(E) != "a" or E.shape != (len(rows), len(rows[0])) or E.dtype.kind != KIND[t]:
+        return ("C05/expression-array-shape-or-dtype", "%r %r" % (getattr(E, "shape", None), getattr(E, "dtype", None)))
+    for i, r in enumerate(want):
+        for j, w in enumerate(r):
+            if not observe.veq(complex(E[i, j]), complex(w), 1e-12):
+                return ("C05/expression-array-layout", "E[%d,%d] is %r, written %s = %r" % (i, j, E[i, j], rows[i][j], w))
+    flat = [w for r in want for w in r]
+    if not observe.veq(complex(p.operations[0]["args"][1]), complex(flat[1]), 1e-12):
+        return ("C05/index-value", "E[1] is %r" % (p.operations[0]["args"][1],))
+    return None
+
+
+FAMILIES = {"exprarray": exprarray_case, "scalar": scalar_case, "array": array_case, "ragged": ragged_case, "index": index_case, "whole": whole_array_param_case}
 
 
 def _case(c):
@@ -197,6 +234,9 @@ def build(ctx):
                     cases.append(("index", (t, r, c, k, form)))
             if (r, c) != (1, 1) or True:
                 cases.append(("whole", (t, r, c)))
+    for t in EXPR_ROWS:
+        for tr in (False, True):
+            cases.append(("exprarray", (t, tr)))
     for t in tuple(VALS):
         for nrows in (2, 3) if ctx.quick else (2, 3, 4):
             for lens in itertools.product((1, 2, 3), repeat=nrows):
